@@ -51,7 +51,8 @@ ASSUMPTIONS = {
 RULE = {
     'C01': 'block tags: T3 (Nbr/Nbw 1..15, Nmaxb, physical limits, WriteF/RWFlag/checksum variants), T3 emulation, '
            'T4 (mapping 2/3, application 1.0/2.0, MLe/MLc 1..65535, file sizes) x lengths {0,1,15,16,17,cap-1,cap,cap+1,'
-           'chunk boundaries,random} x random old/new contents; non-trivial = needs more than one data command or sits '
+           'chunk boundaries,random} x random old/new contents; first a sweep Nbr {1,2,14,15} x Nbw {1,2,12..15} x lengths '
+           'k*16-1,k*16,k*16+1 on passive tag and emulation (commands with the maximum block count); non-trivial = needs more than one data command or sits '
            'on a capacity/chunk boundary',
     'C02': 'block tags: the same generator, every cut point k = 0..n of every write; non-trivial = cut strictly inside',
     'C03': 'block tags: the same generator plus Type 4 format with and without wipe; non-trivial = at least one data byte '
@@ -109,8 +110,8 @@ def t3_wellformed(cfg):
 def t3_gen(rng, small=False):
     nmaxb = rng.choice([1, 2, 3, 4, 5, 8, 13, 14, 20] if small else [1, 2, 3, 5, 13, 14, 17, 20, 40, 255, 256, 300])
     r = rng.random()
-    nbr = rng.randrange(1, 16)
-    nbw = rng.randrange(1, 16)
+    nbr = rng.choice([1, 2, 14, 15, 15, rng.randrange(1, 16), rng.randrange(1, 16)])
+    nbw = rng.choice([1, 2, 12, 13, 14, 15, rng.randrange(1, 16), rng.randrange(1, 16)])
     cfg = dict(ver=rng.choice([0x10, 0x10, 0x11, 0x1F]), nbr=nbr, nbw=nbw, nmaxb=nmaxb, writef=0, rwflag=1,
                rfu=rng.choice([0, 0, 0xA5]), rw=True)
     cfg['maxr'] = rng.choice([nbr, 15])
@@ -141,9 +142,12 @@ def t3_gen(rng, small=False):
     return cfg
 
 
-def t3_lengths(rng, cap):
+def t3_lengths(rng, cap, cfg=None):
     ls = {0, 1, 15, 16, 17, cap - 1, cap, cap + 1, rng.randrange(0, cap + 1), rng.randrange(0, cap + 1)}
-    return sorted(x for x in ls if x >= 0)
+    if cfg is not None:       # exactly the largest single read / write command, one byte less, one byte more
+        for k in (cfg['nbr'], cfg['nbw'], min(cfg['nbw'], 13)):
+            ls |= {k * 16 - 1, k * 16, k * 16 + 1}
+    return sorted(x for x in ls if 0 <= x <= cap + 1)
 
 
 def t3_model_line(cfg, data, cut):
@@ -284,7 +288,9 @@ def t4_gen(rng, small=False, big=False):
 def t4_lengths(rng, cfg, cap):
     ns = t4_nlen(cfg)
     mlc = min(cfg['mlc'], 255)
+    mle = min(cfg['mle'], 256)
     ls = {0, 1, 15, 16, 17, cap - 1, cap, cap + 1, mlc - ns - 1, mlc - ns, mlc - ns + 1, 2 * mlc - ns, 253, 254, 255, 256,
+          mle - 1, mle, mle + 1, 2 * mle, mlc - 1, mlc, mlc + 1,
           rng.randrange(0, cap + 1), rng.randrange(0, cap + 1)}
     return sorted(x for x in ls if 0 <= x <= cap + 1)
 
@@ -457,6 +463,7 @@ CORPUS_T3 = [
     # declared Nbw above what a frame can carry
     (dict(ver=0x10, nbr=15, nbw=15, nmaxb=20, writef=0, rwflag=1, rw=True, maxr=15, maxw=13, ln=0, body='ee' * (16 * 20)), 320),
 ]
+MAXBLOCK_PAIRS = [(15, 13), (15, 15), (14, 14), (14, 12), (2, 2), (1, 1)]
 CORPUS_T4 = [
     # MLc smaller than the NLEN field: final NLEN update truncated
     (dict(mapping=2, mle=15, mlc=1, mfs=600, rf=0, wf=0, fid='e104', v2=True, v1=False, file='0000' + 'ee' * 598), 300),
@@ -582,10 +589,22 @@ def run(ck, pid, mr):
     batch = Batch(ck, mr)
     cut = pid == 'C02'
 
+    # commands carrying the maximum number of blocks the tag announces (and the largest a frame can carry):
+    # Nbr in {1,2,14,15} x Nbw in {1,2,12..15} x messages of exactly k*16-1, k*16, k*16+1 octets, old message of
+    # Nbr*16 octets so that the writer's own first read already asks for Nbr blocks in one command
+    for kind in ('emu', 't3'):
+        for nbr, nbw in MAXBLOCK_PAIRS:
+            cfg = dict(ver=0x10, nbr=nbr, nbw=nbw, nmaxb=20, writef=0, rwflag=1, rw=True, maxr=15, maxw=13,
+                       ln=16 * nbr, body=bytes((5 * i + 3) & 255 for i in range(16 * 20)).hex())
+            for n in sorted({k * 16 + e for k in (nbr, nbw, min(nbw, 13)) for e in (-1, 0, 1)}):
+                run_case(ck, pid, batch, kind, cfg, bytes((7 * i + 1) & 255 for i in range(n)))
+    batch.flush()
+
     # corpus of minimised past failures first
     for cfg, n in CORPUS_T3:
         if not cut or n <= 400:
             run_case(ck, pid, batch, 't3', cfg, bytes((7 * i + 1) & 255 for i in range(n)))
+            run_case(ck, pid, batch, 'emu', cfg, bytes((7 * i + 1) & 255 for i in range(n)))
     for cfg, n in CORPUS_T4 + ([] if (quick or cut) else CORPUS_T4_BIG):
         if not cut or n <= 400:
             run_case(ck, pid, batch, 't4', cfg, bytes((7 * i + 1) & 255 for i in range(n)))
@@ -597,7 +616,7 @@ def run(ck, pid, mr):
         for _ in range(count):
             cfg = gen(rng, small=cut or rng.random() < 0.7)
             cap = 16 * cfg['nmaxb']
-            ls = t3_lengths(rng, cap)
+            ls = t3_lengths(rng, cap, cfg)
             if cut:
                 ls = rng.sample(ls, min(len(ls), 3 if quick else 5))
             elif quick and cap > 1000:
